@@ -38,6 +38,19 @@ func EvaluateUpdate(q sql.UpdateStatementSearched, rm RelationManager) error {
 		updateSrc = append(updateSrc, set.UpdateSource)
 	}
 
+	// refuse the statement before any row is changed if the new values do
+	// not fit one of the rows: a statement that returns an error changes
+	// nothing
+	if checker, ok := rm.(interface {
+		CheckUpdate(tableName string, rowID uint32, cols []string, updateSrc []interface{}) error
+	}); ok {
+		for _, row := range rows {
+			if err := checker.CheckUpdate(q.TableName, row.RowID, cols, updateSrc); err != nil {
+				return err
+			}
+		}
+	}
+
 	var batch storage.WALBatch
 	for _, row := range rows {
 		walEntries, err := rm.Update(q.TableName, row.RowID, cols, updateSrc)
